@@ -193,5 +193,6 @@ DaySignsC(K, d) ==
 \* groundwater at day level: saturation below the table; no table => no capillary rise / inflow
 DayGwC(K, end, d) ==
   [ noTable   |-> (~d.wt) => (IsZero(d.cr) /\ IsZero(d.gwin)),
-    saturated |-> d.wt /\ d.hasZ => \A i \in Idx(K) : Ge(K.zmid[i], d.zgw) => Near(end.W[i], K.Wsat[i], Tol9) ]
+    \* (a centre within 1e-9 m of the table is a tie between exact and floating-point comparison: either outcome accepted)
+    saturated |-> d.wt /\ d.hasZ => \A i \in Idx(K) : Ge(K.zmid[i], Add(d.zgw, Tol9)) => Near(end.W[i], K.Wsat[i], Tol9) ]
 =============================================================================
